@@ -98,7 +98,7 @@ Record conn_case := {
   k_echo : bspec                   (* received by the covert echo server *)
 }.
 
-Definition hyps_limit : nat := 1500.
+Definition hyps_limit : nat := 400.
 
 Section WithTable.
   Variable tbl : list pfx.
